@@ -30,9 +30,19 @@ type zzPipe struct {
 	mc     *model.MC
 	avail  chan struct{}
 	closed bool
+	// sockcap >= 0: socket buffers are finite -- a write returns only once the backend, which
+	// stops reading requests while more than sockcap bytes of its replies are unread, has taken
+	// all of it
+	sockcap int
+	drained chan struct{}
 }
 
-func zzNewPipe(mc *model.MC) *zzPipe { return &zzPipe{mc: mc, avail: make(chan struct{}, 1)} }
+// zzSockCap is the socket-buffer bound given to new pipes (-1: unbounded).
+var zzSockCap = -1
+
+func zzNewPipe(mc *model.MC) *zzPipe {
+	return &zzPipe{mc: mc, avail: make(chan struct{}, 1), sockcap: zzSockCap, drained: make(chan struct{}, 1)}
+}
 
 func (p *zzPipe) signal() {
 	select {
@@ -52,6 +62,10 @@ func (p *zzPipe) Read(b []byte) (int, error) {
 		if pending > 0 || p.mc.Broken() {
 			n, err := p.mc.Read(b)
 			p.mu.Unlock()
+			select {
+			case p.drained <- struct{}{}:
+			default:
+			}
 			return n, err
 		}
 		p.mu.Unlock()
@@ -68,6 +82,16 @@ func (p *zzPipe) Write(b []byte) (int, error) {
 	n, err := p.mc.Write(b)
 	p.mu.Unlock()
 	p.signal()
+	for p.sockcap >= 0 {
+		p.mu.Lock()
+		pending, _ := p.mc.Pending()
+		done := p.closed || p.mc.Broken() || pending <= p.sockcap
+		p.mu.Unlock()
+		if done {
+			break
+		}
+		<-p.drained
+	}
 	return n, err
 }
 
@@ -77,6 +101,10 @@ func (p *zzPipe) Close() error {
 	p.mc.Close()
 	p.mu.Unlock()
 	p.signal()
+	select {
+	case p.drained <- struct{}{}:
+	default:
+	}
 	return nil
 }
 
@@ -376,6 +404,8 @@ func ZZBatchedStep() {
 // for writes, so the solo result is well defined).
 func ZZBatchedTwoCallers() {
 	nk := 3
+	zzSockCap = rt.Param("sockcap", -1)
+	defer func() { zzSockCap = -1 }()
 	pool, direct, _ := zzStores(nk)
 	zzDeferStart = true
 	c := zzConn(pool, 0, 2)
